@@ -47,6 +47,11 @@ def check_case(ctx, case, record=True):
     cfg = dict(op["cfg"])
     if ft is not None:
         cfg["fresh"] = ft
+    # a source created through another registry is never transformed: executing it fails.  With max_errors=None
+    # every call without a failed dependency still runs, so the two executions remain comparable.
+    has_foreign = any(nd.get("foreign") for nd in spec["nodes"])
+    if has_foreign:
+        cfg["max_errors"] = None
     # world A: dry run
     a.reset_log()
     tkind = case.get("transform")
@@ -69,13 +74,25 @@ def check_case(ctx, case, record=True):
         ctx.violation(case, tag + "dry run's output node is not part of the returned physical plan")
     nodes = list(pplan.graph.nodes())
     a.reset_log()
-    with world.seeded_random(cfg.get("rseed", 0)):
-        try:
-            val_a = uberjob.run(pplan, output=nodes, progress=None, max_workers=cfg.get("workers"),
-                                scheduler=cfg.get("scheduler"))
-            err_a = None
-        except BaseException as e:
-            val_a, err_a = None, e
+    # "executing all nodes of that plan by itself": half of the cases through an independent sequential
+    # interpreter of the documented graph model, the other half through uberjob.run without a registry
+    independent = cfg.get("rseed", 0) % 2 == 0 or has_foreign
+    if independent:
+        from vlib import physexec
+        vals, failures = physexec.execute(pplan)
+        val_a = [vals.get(n) for n in nodes]
+        err_a = None
+        if failures:
+            err_a = uberjob.CallError(failures[0][0])
+            err_a.__cause__ = failures[0][1]
+    else:
+        with world.seeded_random(cfg.get("rseed", 0)):
+            try:
+                val_a = uberjob.run(pplan, output=nodes, progress=None, max_workers=cfg.get("workers"),
+                                    scheduler=cfg.get("scheduler"))
+                err_a = None
+            except BaseException as e:
+                val_a, err_a = None, e
     obs_a = refmodel.observed(a)
     # world B: the real run
     b.reset_log()
@@ -85,17 +102,28 @@ def check_case(ctx, case, record=True):
     if record:
         nt = bool(obs_b["writes"]) and bool(obs_b["reads"])
         ctx.case(case, nt, ["writes" if obs_b["writes"] else "no_writes", "reads" if obs_b["reads"] else "no_reads",
-                            "output" if out_node is not None else "no_output", f"transform:{tkind}"])
-    if st_b != "ok":
+                            "output" if out_node is not None else "no_output", f"transform:{tkind}"]
+                 + (["foreign_source"] if has_foreign else []) + (["independent_executor"] if independent else ["executed_by_run"])
+                 + (["foreign_source_needed"] if has_foreign and st_b != "ok" else []))
+    both_fail = False
+    if has_foreign and (st_b != "ok" or err_a is not None):
+        # legitimate only as CallError caused by the untransformed source, and then on both sides
+        for what, e in (("real run", val_b if st_b != "ok" else None), ("physical plan", err_a)):
+            if e is None:
+                ctx.violation(case, tag + f"the {what} succeeded although the other execution failed on the untransformed source")
+            if not isinstance(e, uberjob.CallError) or type(e.__cause__).__name__ != "NotTransformedError":
+                ctx.violation(case, tag + f"the {what} raised {e!r} (cause {getattr(e, '__cause__', None)!r})")
+        both_fail = True
+    elif st_b != "ok":
         ctx.violation(case, tag + f"real run failed: {val_b!r}")
-    if err_a is not None:
+    elif err_a is not None:
         ctx.violation(case, tag + f"executing the dry run's physical plan by itself raised {err_a!r} (cause {err_a.__cause__!r})")
     for key in ("exec", "reads", "writes"):
         if obs_a[key] != obs_b[key]:
             ctx.violation(case, tag + f"{key}: physical plan performed {dict(obs_a[key])}, real run {dict(obs_b[key])}")
     if obs_a["mt"]:
         ctx.violation(case, tag + f"executing the physical plan queried modified times: {dict(obs_a['mt'])}")
-    if out_node is not None:
+    if out_node is not None and not both_fail:
         got = val_a[nodes.index(out_node)]
         d = vdiff(val_b, got)
         if d:
@@ -109,17 +137,22 @@ def check_case(ctx, case, record=True):
 def run_shard(ctx):
     max_nodes, max_ops = (8, 4) if ctx.tier == "quick" else (12, 7)
 
-    @given(regcommon.reg_cases(max_nodes=max_nodes, max_ops=max_ops, det_share=0, disturb_last=True, alias=True, sread=True),
+    @given(regcommon.reg_cases(max_nodes=max_nodes, max_ops=max_ops, det_share=0, disturb_last=True, alias=True, sread=True, foreign=True),
            st.sampled_from([None, None, None, "copy", "copy_add", "copy_wrap", "inplace_add", "inplace_wrap"]))
     def test(case, tkind):
         case = dict(case, transform=tkind)
         check_case(ctx, case)
 
     runner.drive(ctx, test, ctx.n(8000, 80000))
+    from checks import c14_files
+    c14_files.run(ctx)
 
 
 def replay(ctx, case):
     case = common.decode(case)
+    if case.get("kind") == "files":
+        from checks import c14_files
+        return c14_files.replay(ctx, case)
     for _ in range(3):
         try:
             check_case(ctx, case, record=False)
